@@ -84,6 +84,9 @@ where
     let mut r#match = None;
     let mut len = 0;
 
+    // The buffer holds the previous fields: only what this call appends is this field.
+    let start = dst.len();
+
     loop {
         let src = match reader.fill_buf() {
             Ok(src) => src,
@@ -113,7 +116,7 @@ where
 
     let is_eol = matches!(r#match, Some(LINE_FEED));
 
-    if is_eol && dst.ends_with(CARRIAGE_RETURN) {
+    if is_eol && dst.len() > start && dst.ends_with(CARRIAGE_RETURN) {
         dst.pop();
     }
 
